@@ -237,7 +237,7 @@ func (m *Model) DispenseInstantly(consumable string, quantity *traits.Consumable
 		return nil, err
 	}
 	if maskedErr != nil {
-		return nil, err
+		return nil, maskedErr
 	}
 	return stock, nil
 }
